@@ -371,11 +371,14 @@ def rule_exclusive_cosmetic(run, F, cfg):
     # the lists placed in the trigger are the two components of a (hostnames, not_hostnames) pair, swapped for exceptions
     tuples = sorted(tuple(f.vexpr_operand(o) for o in s2["rv"]["ops"]) for b2, i2, s2 in f.statements()
                     if s2["k"] == "assign" and s2["rv"]["k"] == "agg" and s2["rv"].get("agg") == "tuple" and len(s2["rv"]["ops"]) == 2
-                    and all("hostnames_vec" in f.vexpr_operand(o) for o in s2["rv"]["ops"]))
-    ok_src = tuples == [("$hostnames_vec", "$not_hostnames_vec"), ("$not_hostnames_vec", "$hostnames_vec")] and \
-        "if_domain" in ops and "unless_domain" in ops
+                    and all(re.match(r"^\$\w+$", f.vexpr_operand(o)) for o in s2["rv"]["ops"]))
     tested = sorted(x for x in (f.vexpr_operand(t["args"][0]) for tb, t in f.calls(r"^std::option::Option::is_some$"))
-                    if "hostnames_vec" in x)
+                    if re.match(r"^\$\w+$", x))
+    from analysis.names import renaming as _ren
+    ok_src = _ren({"pairs": frozenset(tuples), "tested": frozenset(tested)},
+                  {"pairs": frozenset({("$hostnames_vec", "$not_hostnames_vec"), ("$not_hostnames_vec", "$hostnames_vec")}),
+                   "tested": frozenset({"$hostnames_vec", "$not_hostnames_vec"})}, fixed=()) is not None and \
+        "if_domain" in ops and "unless_domain" in ops
     n = both = undecided = 0
     for p in enumerate_paths(f, stop_blocks=[b], budget=200000):
         if p.end != f"stop:{b}":
@@ -386,8 +389,7 @@ def rule_exclusive_cosmetic(run, F, cfg):
             both += 1
         if not any(v == 0 for v in vals):
             undecided += 1
-    run.ob("C20.3.if-unless-exclusive", "cosmetic:trigger-lists", ok_src and n > 0 and both == 0 and undecided == 0
-           and tested == ["$hostnames_vec", "$not_hostnames_vec"],
+    run.ob("C20.3.if-unless-exclusive", "cosmetic:trigger-lists", ok_src and n > 0 and both == 0 and undecided == 0,
            "the cosmetic CbTrigger takes (if_domain, unless_domain) from the pair (hostnames, not_hostnames) — swapped for "
            "exceptions — and is built only on paths where is_some() failed for at least one of the two "
            f"({n} paths, {both} with both present, {undecided} without a failed test; tested {tested}; pairs {tuples})",
